@@ -10,7 +10,7 @@ import z3
 
 def _query_text(ob):
     s = z3.Solver()
-    for h in ob.hyps:
+    for h in list(ob.hyps) + list(_extra(ob)):
         s.add(h)
     s.add(z3.Not(ob.goal))
     return s.to_smt2()
@@ -20,7 +20,20 @@ def obligation_hash(ob):
     return hashlib.sha256(_query_text(ob).encode("utf-8")).hexdigest()
 
 
-def _check(hyps, goal, timeout_ms, opts=()):
+def _extra(ob):
+    from . import spec as _spec
+    ex = getattr(ob, "_extra", None)
+    if ex is None:
+        ex = _spec.unfold_closure(list(ob.hyps) + [ob.goal])
+        try:
+            ob._extra = ex
+        except AttributeError:
+            pass
+    return ex
+
+
+def _check(hyps, goal, timeout_ms, opts=(), extra=()):
+    hyps = list(hyps) + list(extra)
     s = z3.Solver()
     s.set("timeout", int(timeout_ms))
     for k, v in opts:
@@ -39,7 +52,8 @@ def solve(ob, timeout_ms=10000, use_cvc5=True):
     if z3.is_true(g):
         return "discharged", "simplifier", time.time() - t0, None
     # 1. all hypotheses, short budget
-    r, s = _check(ob.hyps, ob.goal, min(2000, timeout_ms))
+    extra = _extra(ob)
+    r, s = _check(ob.hyps, ob.goal, min(2000, timeout_ms), extra=extra)
     if r == z3.unsat:
         return "discharged", "z3", time.time() - t0, None
     if r == z3.sat:
@@ -49,11 +63,11 @@ def solve(ob, timeout_ms=10000, use_cvc5=True):
     derived = getattr(ob, "derived", None) or set()
     if derived:
         core = [h for i, h in enumerate(ob.hyps) if i not in derived]
-        r1, _ = _check(core, ob.goal, timeout_ms)
+        r1, _ = _check(core, ob.goal, timeout_ms, extra=extra)
         if r1 == z3.unsat:
             return "discharged", "z3(core hyps)", time.time() - t0, None
     # 3. all hypotheses, full budget, other arithmetic solver
-    r, s2 = _check(ob.hyps, ob.goal, timeout_ms, (("smt.arith.solver", 2),))
+    r, s2 = _check(ob.hyps, ob.goal, timeout_ms, (("smt.arith.solver", 2),), extra=extra)
     if r == z3.unsat:
         return "discharged", "z3(arith.solver=2)", time.time() - t0, None
     if r == z3.sat:
